@@ -222,7 +222,9 @@ def c20_extended_check_window_truncated(v, case):
     """CommandsPipeline with extended_overlaps_check=True recomputes 'was actually emitted' over a history of only the
     previous controller cycle and assumes that its oldest entries were emitted; when a run of overlapping commands began
     two or more cycles earlier the recomputed history disagrees with what was really sent, and commands are dropped or
-    emitted on top of each other.  Accepts only witnesses of the extended check inside such a long run."""
-    return bool(v.get("extended_check") and (v.get("chain_start_cycles_back") or 0) >= 2 and v.get("kind") in (
+    emitted on top of each other.  Accepts only witnesses of the extended check that lie within 3 slots of a command for
+    which that truncated-window recomputation (emulated in the harness from the presented commands alone) decides
+    differently from the sequential rule of the property."""
+    return bool(v.get("extended_check") and v.get("within_3_slots_of_a_truncated_window_decision") and v.get("kind") in (
         "command-suppressed-although-nothing-in-flight", "unexpected-command-on-the-pads", "cs-high-on-two-consecutive-slots",
         "emitted-command-differs"))
